@@ -74,7 +74,9 @@ Record handler := mkH {
 Inductive action :=
 | APost (e : Z) (ty : ety) (cb : option Z) (k : kw)
 | AAdd (key e pid prio suffix rel : Z) (hk : kw) (c : cond)
-| ARemove (key : Z).
+| ARemove (key : Z)
+| ARemoveMethod (pid : Z)                          (* remove_handler(method) *)
+| AReplace (key e pid prio : Z) (hk : kw).         (* replace_handler(event, method, priority, **kwargs) *)
 
 Record prog := mkP { p_acts : list action; p_ret : ret }.
 Definition script := list (Z * list prog).
@@ -177,6 +179,57 @@ Definition remove_by_key (key : Z) (s : state) : state :=
       end
   end.
 
+(* remove_handler(method): every registration of the procedure, in every event; events left without a handler
+   are deleted (_remove_event_if_empty) *)
+Fixpoint reg_filter (f : handler -> bool) (r : list (Z * list handler)) : list (Z * list handler) :=
+  match r with
+  | [] => []
+  | (e, l) :: t =>
+      let l' := filter f l in
+      if is_nil l' then reg_filter f t else (e, l') :: reg_filter f t
+  end.
+Definition remove_by_method (pid : Z) (s : state) : state :=
+  set_reg (reg_filter (fun h => negb (h_pid h =? pid)) (reg s)) (keys s) (nseq s) s.
+
+(* Python == on the values that occur in kwargs (True == 1, False == 0) and on dicts *)
+Definition val_num (v : val) : option Z :=
+  match v with VZ z => Some z | VB b => Some (if b then 1 else 0) | _ => None end.
+Fixpoint zz_eqb (a b : list (Z * Z)) : bool :=
+  match a, b with
+  | [], [] => true
+  | (k, v) :: a', (k', v') :: b' => (k =? k') && (v =? v') && zz_eqb a' b'
+  | _, _ => false
+  end.
+Definition val_pyeq (a b : val) : bool :=
+  match val_num a, val_num b with
+  | Some x, Some y => x =? y
+  | None, None =>
+      match a, b with
+      | VNone, VNone => true
+      | VMap x, VMap y => zz_eqb x y
+      | _, _ => false
+      end
+  | _, _ => false
+  end.
+Fixpoint kw_pyeq (a b : kw) : bool :=
+  match a, b with
+  | [], [] => true
+  | (k, v) :: a', (k', v') :: b' => (k =? k') && val_pyeq v v' && kw_pyeq a' b'
+  | _, _ => false
+  end.
+
+(* replace_handler: drop the registrations of the procedure for this event (with equal kwargs, if kwargs are
+   given), then add_handler.  The code does not delete an event that is empty in between; add_handler refills it. *)
+Definition replace_handler (key e pid prio : Z) (hk : kw) (s : state) : state :=
+  let s1 :=
+    match reg_get e (reg s) with
+    | None => s
+    | Some l =>
+        let keep h := negb ((h_pid h =? pid) && (is_nil hk || kw_pyeq (h_kw h) (kw_norm hk))) in
+        set_reg (reg_put e (filter keep l) (reg s)) (keys s) (nseq s) s
+    end in
+  add_handler key e pid prio hk None s1.
+
 (* _post.  [fast] = the fast path of the code ("no callback and no handler registered: return");
    the code has it, so the model is always run with fast = true; fast = false is the reading of the
    property in which every post is queued (used by the _refuted theorem only). *)
@@ -193,6 +246,8 @@ Definition run_action (fast : bool) (a : action) (s : state) : state :=
   | APost e ty cb k => post fast e ty cb k s
   | AAdd key e pid prio suffix rel hk c => add_handler key e pid (prio + suffix + rel) hk c s
   | ARemove key => remove_by_key key s
+  | ARemoveMethod pid => remove_by_method pid s
+  | AReplace key e pid prio hk => replace_handler key e pid prio hk s
   end.
 
 Definition run_acts (fast : bool) (l : list action) (s : state) : state :=
@@ -375,12 +430,6 @@ Definition c01_run (i : c01_in) : c01_out :=
   (negb (oof s), out s,
    map (fun e => match reg_get e (reg s) with Some l => map h_key l | None => [] end) evs).
 
-Fixpoint zz_eqb (a b : list (Z * Z)) : bool :=
-  match a, b with
-  | [], [] => true
-  | (k, v) :: a', (k', v') :: b' => (k =? k') && (v =? v') && zz_eqb a' b'
-  | _, _ => false
-  end.
 Definition val_eqb (a b : val) : bool :=
   match a, b with
   | VZ x, VZ y => x =? y
